@@ -194,8 +194,11 @@ class Scope(object):
         self.parent.annotations.update(self.annotations)
       else:
         # TODO(mdan): This is not accurate.
-        self.parent.read.update(self.read - self.bound)
-        self.parent.annotations.update(self.annotations - self.bound)
+        # Names declared nonlocal are tracked as bound here, but they belong to
+        # an enclosing scope, which must see that this scope uses them.
+        local_names = self.bound - self.nonlocals
+        self.parent.read.update(self.read - local_names)
+        self.parent.annotations.update(self.annotations - local_names)
     self.is_final = True
 
   def __repr__(self):
